@@ -52,8 +52,14 @@ def hexVal (c : Nat) : Nat :=
 def natOfDigits (ds : List B) : Nat := ds.foldl (fun acc c => acc * 10 + digitVal c) 0
 def natOfHex (ds : List B) : Nat := ds.foldl (fun acc c => acc * 16 + hexVal c) 0
 
+/-- decimal digits of a positive number prepended to `acc` (fuel-free: recursion on `n / 10`) -/
+def natDigitsGo (n : Nat) (acc : List B) : List B :=
+  if h : n = 0 then acc else natDigitsGo (n / 10) ((48 + n % 10) :: acc)
+termination_by n
+decreasing_by omega
+
 /-- decimal digits of a natural number, most significant first -/
-def natDigits (n : Nat) : List B := (Nat.toDigits 10 n).map (fun c => c.toNat)
+def natDigits (n : Nat) : List B := if n = 0 then [48] else natDigitsGo n []
 
 theorem toLower_idem (c : Nat) : toLower (toLower c) = toLower c := by
   simp only [toLower, isUpperAlpha, Bool.and_eq_true, decide_eq_true_eq]
